@@ -52,7 +52,8 @@ impl<T: Copy> RationalResampler<T> {
             Self {
                 interp: i64::try_from(interp)?,
                 deci: i64::try_from(deci)?,
-                counter: 0,
+                // Outputs owed for the first input sample.
+                counter: i64::try_from(interp)?,
                 src,
                 dst,
             },
@@ -77,17 +78,20 @@ impl<T: Copy> Block for RationalResampler<T> {
         let mut taken = 0;
         let mut out_full = false;
         'outer: for s in i.iter() {
-            taken += 1;
-            self.counter += self.interp;
+            // `counter` is what is still owed for this input sample. If the
+            // output fills up before that's all written, then the sample is
+            // not consumed, and the rest is written in the next call.
             while self.counter > 0 {
-                o.slice()[opos] = *s;
-                self.counter -= self.deci;
-                opos += 1;
                 if opos == o.len() {
                     out_full = true;
                     break 'outer;
                 }
+                o.slice()[opos] = *s;
+                self.counter -= self.deci;
+                opos += 1;
             }
+            taken += 1;
+            self.counter += self.interp;
         }
         i.consume(taken);
         o.produce(opos, &[]);
